@@ -577,7 +577,7 @@ pub fn pkg_cmd(st: &mut State, name: &str, args: &[Sx]) -> Option<Sx> {
                 "create_table" | "drop_table" | "insert" | "delete" | "update" | "select" | "tables" | "ptype" | "db_cp"
                     | "set_db_cp" | "streams" | "has_stream" | "read_stream" | "write_stream" | "remove_stream" | "has_sig"
                     | "remove_sig" | "sum_get" | "sum_set" | "sum_clear" | "flush" | "reopen" | "raw" | "rows" | "stream_data"
-                    | "writes" | "snapshot" | "x_raw" | "x_insert_range" | "x_count" | "x_delete_range"
+                    | "writes" | "snapshot" | "x_raw" | "x_insert_range" | "x_count" | "x_delete_range" | "x_read_seek" | "x_write_seek"
             ) {
                 return None;
             }
@@ -609,8 +609,10 @@ pub fn pkg_cmd(st: &mut State, name: &str, args: &[Sx]) -> Option<Sx> {
                     let mut q = Insert::into(n.as_string());
                     for k in lo.as_int()..=hi.as_int() {
                         let mut row = vec![msi::Value::Int(k as i32)];
-                        if with_str.as_bool() {
-                            row.push(msi::Value::Str(format!("s{}", k)));
+                        match with_str.as_int() {
+                            1 => row.push(msi::Value::Str(format!("s{}", k))),
+                            2 => row.push(msi::Value::Null),
+                            _ => {}
                         }
                         q = q.row(row);
                     }
@@ -662,6 +664,55 @@ pub fn pkg_cmd(st: &mut State, name: &str, args: &[Sx]) -> Option<Sx> {
                 ("write_stream", [n, b]) => match p.write_stream(&n.as_string()) {
                     Ok(mut w) => {
                         let r = w.write_all(&b.as_bytes()).and_then(|_| w.flush());
+                        unit_res(r)
+                    }
+                    Err(_) => Sx::err(),
+                },
+                // one StreamReader, used the way a parser of an embedded file uses it: reads interleaved with seeks
+                ("x_read_seek", [n, ops]) => match p.read_stream(&n.as_string()) {
+                    Ok(mut r) => {
+                        use std::io::{Seek, SeekFrom};
+                        let mut out = Vec::new();
+                        for op in ops.as_list() {
+                            let op = op.as_list();
+                            let arg = if op.len() > 1 { op[1].as_int() } else { 0 };
+                            let res = match op[0].as_sym() {
+                                "r" => {
+                                    let mut buf = vec![0u8; arg as usize];
+                                    let mut got = 0usize;
+                                    let mut failed = false;
+                                    while got < buf.len() {
+                                        match r.read(&mut buf[got..]) {
+                                            Ok(0) => break,
+                                            Ok(k) => got += k,
+                                            Err(_) => {
+                                                failed = true;
+                                                break;
+                                            }
+                                        }
+                                    }
+                                    if failed {
+                                        Sx::err()
+                                    } else {
+                                        Sx::bytes(&buf[..got])
+                                    }
+                                }
+                                "s" => r.seek(SeekFrom::Start(arg as u64)).map(|x| Sx::I(x as i128)).unwrap_or_else(|_| Sx::err()),
+                                "c" => r.seek(SeekFrom::Current(arg as i64)).map(|x| Sx::I(x as i128)).unwrap_or_else(|_| Sx::err()),
+                                "e" => r.seek(SeekFrom::End(arg as i64)).map(|x| Sx::I(x as i128)).unwrap_or_else(|_| Sx::err()),
+                                _ => r.stream_position().map(|x| Sx::I(x as i128)).unwrap_or_else(|_| Sx::err()),
+                            };
+                            out.push(res);
+                        }
+                        Sx::ok(Sx::L(out))
+                    }
+                    Err(_) => Sx::err(),
+                },
+                // write, ask for the position (a seek that stays inside the buffered window), flush, drop
+                ("x_write_seek", [n, b]) => match p.write_stream(&n.as_string()) {
+                    Ok(mut w) => {
+                        use std::io::Seek;
+                        let r = w.write_all(&b.as_bytes()).and_then(|_| w.stream_position()).and_then(|_| w.flush());
                         unit_res(r)
                     }
                     Err(_) => Sx::err(),
